@@ -285,11 +285,72 @@ class Compiler:
 
     # -- expressions: precedence climbing ------------------------------------------------------
     def expr(self, expected=None):
-        return self.cmp_expr(expected)
+        return self.bool_expr(expected)
+
+    def _expr_end(self):
+        """index of the first token after this expression (`,` `;` `{` `}` or an unmatched closing bracket at depth 0)"""
+        d = 0
+        for j in range(self.pos, len(self.toks)):
+            s = self.toks[j].text
+            if self.toks[j].kind == "punct":
+                if s in "([":
+                    d += 1
+                elif s in ")]":
+                    d -= 1
+                    if d < 0:
+                        return j
+                elif d == 0 and s in (",", ";", "{", "}"):
+                    return j
+        return len(self.toks)
+
+    def bool_expr(self, expected):
+        """`||` / `&&` (short-circuit; both operands are pure here, so orb / andb), lowest precedence"""
+        if self.peek() in ("if", "{") or not self._has_top(("||", "&&")):
+            return self.cmp_expr(expected)
+        end = self._expr_end()
+        toks = self.toks[self.pos:end]
+
+        def split(ts, op):
+            out, cur, d = [], [], 0
+            for t in ts:
+                if t.kind == "punct" and t.text in "([":
+                    d += 1
+                elif t.kind == "punct" and t.text in ")]":
+                    d -= 1
+                if d == 0 and t.kind == "punct" and t.text == op:
+                    out.append(cur)
+                    cur = []
+                else:
+                    cur.append(t)
+            out.append(cur)
+            return out
+
+        def one(ts):
+            c = self.sub(ts)
+            e = c.cmp_expr("bool")
+            if c.pos != len(ts):
+                self.err("trailing tokens in an operand of `||` / `&&`")
+            if e.ty != "bool":
+                self.err("operand of `||` / `&&` has type %s" % e.ty)
+            if e.partial:
+                self.err("a partial operation under `||` / `&&` is outside the translated fragment")
+            return e
+        disj = []
+        for seg in split(toks, "||"):
+            conj = [one(x) for x in split(seg, "&&")]
+            e = conj[0]
+            for x in conj[1:]:
+                e = self.app("andb", [e, x], "bool")
+            disj.append(e)
+        e = disj[0]
+        for x in disj[1:]:
+            e = self.app("orb", [e, x], "bool")
+        self.pos = end
+        return e
 
     def cmp_expr(self, expected):
         ops = ("==", "!=", "<", "<=", ">", ">=")
-        if not self._has_top(ops):
+        if self.peek() in ("if", "{") or not self._has_top(ops):
             return self.add_expr(expected)
         l = self._operand_pair(self.add_expr, ops)
         (a, op, b) = l
@@ -520,6 +581,8 @@ class Compiler:
                 return self.app("i_neg %d" % w, [recv], t)
             self.err("method `%s` (with %d argument(s)) on %s is outside the translated fragment" % (name, len(args), t), name_tok)
         if is_float(t):
+            if name == "is_nan" and not args:
+                return self.app("f_is_nan", [recv], "bool")
             if name in FLOAT_METHODS and len(args) + 1 == FLOAT_METHODS[name][1]:
                 for a in args:
                     if a.ty != t:
